@@ -93,7 +93,7 @@ def r_parameters(ctx):
     rets = [S(r) for k, p, r in explore(ctx, tp) if k == 'RET']
     ctx.ob(rid, 'template:parameters', rets == ['parameters(self.simfony)'], 'TemplateProgram::parameters returns the analysed program\'s map', tp.where(), str(rets))
     table = guards.load_table()
-    guards.compare(ctx, rid, ['ast::Scope::insert_parameter'], table, 'insert_parameter')
+    guards.compare(ctx, rid, ['ast::Scope::insert_parameter'], table, 'insert_parameter', guards.GUARD_FIELDS)
 
 
 def r_arguments(ctx):
